@@ -238,8 +238,8 @@ PROPS["C19"] = {
     "level_text": "Stateful property test whose user actions are the real command bodies (run through build-tagged shims with an injected client): a generated prefix history reaches no canary / canary running / auto-paused / user-paused / failed / mid rolling update, then up to three commands, each followed by fair rounds. Oracle: the store diff before/after a command touches only the documented annotation keys (for `fail`: only the canary replica set's Canary-Failed condition); a command whose precondition is false, or that returns an error, writes nothing; annotation values are the documented ones; within six rounds pause => Canary Paused, unpause => Canary, validate => exactly the replica set that was status.canary.replicaSet when the command ran is active (a later template is not promoted by the old annotation: promotion-rule monitor), fail => rollback. A scenario family covers `canary fail` on a re-used replica set.",
     "level_note": "Expectations about the controller's interpretation are only demanded when the command acted on the current canary (status.canary matching spec.template) and, for fail, when the canary is not explicitly validated.",
     "technique": "stateful property-based testing (rapid) with real command bodies as actions, store-diff oracle and bounded-rounds interpretation oracle",
-    "quick": {"jobs": [rapid_job("commands", "^TestC19Commands$", 300, shards=4), rapid_job("reused-set", "^TestC19FailReusedSet$", 60)]},
-    "thorough": {"jobs": [rapid_job("commands", "^TestC19Commands$", 2500, shards=15, timeout="50m"), rapid_job("reused-set", "^TestC19FailReusedSet$", 400)]},
+    "quick": {"jobs": [rapid_job("commands", "^TestC19Commands$", 300, shards=4), rapid_job("reused-set", "^TestC19FailReusedSet$", 60), rapid_job("fail-mid-sync", "^TestC19FailMidSync$", 60, requires="verif_plugin")]},
+    "thorough": {"jobs": [rapid_job("commands", "^TestC19Commands$", 2500, shards=15, timeout="50m"), rapid_job("reused-set", "^TestC19FailReusedSet$", 400), rapid_job("fail-mid-sync", "^TestC19FailMidSync$", 500, requires="verif_plugin")]},
 }
 
 NOT_APPLICABLE = {}
